@@ -42,7 +42,8 @@ class ProbeRng:
         return np.full(size, int(low), dtype=np.int64) if size is not None else int(low)
 
     def uniform(self, low=0.0, high=1.0, size=None):
-        return np.full(size if size is not None else (), 0.5, dtype=float)
+        mid = (np.asarray(low, dtype=float) + np.asarray(high, dtype=float)) / 2.0  # inside [low, high) also for per-stratum bounds
+        return np.broadcast_to(mid, size).copy() if size is not None else mid
 
 
 def program(cls_name, N, h, hs, kmax, both_flags, probe=False):
